@@ -805,6 +805,11 @@ func (fr *Frame) copyBytes(src, n Term, st *State) Term {
 	nw := vc.fresh("E$uint8~c", "(Array Int Int)")
 	vc.assume(fmt.Sprintf("(forall ((k Int)) (! (= (select %s k) (ite (and (<= %s k) (< k (+ %s %s))) (select %s %s) (select %s k))) :pattern ((select %s k))))",
 		nw, arr, arr, n, old, adr(src, sx("-", "k", arr)), old, nw))
+	// ground instances for the first bytes (consequences of the axiom above; short
+	// copies such as string(in[i:i+4]) are then visible without quantifier work)
+	for j := int64(0); j < 4; j++ {
+		vc.assume(implies(sx("<", itoa(j), n), eq(sel(nw, adr(arr, itoa(j))), sel(old, adr(src, itoa(j))))))
+	}
 	st.m["E$uint8"] = nw
 	return arr
 }
